@@ -91,12 +91,21 @@ def gen_py(rng, n_items=30, max_small=10, forms=True):
         return n[0]
     b.add('"""Generated literals module."""')
     b.add("import os")
+    b.add("from typing import Final")
     b.add("")
     # module-level constants (exempt), keep < 4 so the file is not a constants-definition module
     for _ in range(rng.randint(0, 3)):
         t, v = py_literal(rng, used, forms)
         cname = rng.choice(["LIMIT_%d", "_PRIVATE_LIMIT_%d", "MAX2_RETRIES_%d", "__DUNDERISH_%d", "TIMEOUT_%d_SECONDS"]) % nx()
-        b.add("%s = %s" % (cname, t), v, t, "const")
+        # every way of writing an UPPER_CASE constant definition: plain, negative, annotated
+        form = rng.choice(["%s = %s", "%s = %s", "%s = -%s", "%s: int = %s", "%s: Final = %s", "%s = 1 * %s", "%s = -(%s + 1)"])
+        b.add(form % (cname, t), v, t, "const")
+    if rng.random() < 0.4:
+        t, v = py_literal(rng, used, forms)
+        b.add("")
+        b.add("")
+        b.add("class Settings_%d:" % nx())
+        b.add("    CLASS_LIMIT_%d = %s" % (nx(), t), v, t, "const")
     b.add("")
     b.add("")
     b.add("def func_main(a, items):")
@@ -110,16 +119,16 @@ def gen_py(rng, n_items=30, max_small=10, forms=True):
         elif r < 0.58:
             v = rng.choice(SMALL + [rng.randint(0, 25)])
             cat = "range" if 0 <= v <= max_small else "plain"
-            b.add("%sfor idx_%d in range(%d):" % (ind, k, v), v, str(v), cat)
+            b.add(rng.choice(["%sfor idx_%d in range(%d):", "%sfor idx_%d in range(a, %d):", "%sfor idx_%d in reversed(range(%d)):", "%sfor idx_%d in list(range(%d)):"]) % (ind, k, v), v, str(v), cat)
             b.add("%s    work_%d(idx_%d)" % (ind, k, k))
         elif r < 0.64:
             v = rng.choice(SMALL + [rng.randint(0, 25)])
             cat = "enumerate" if 0 <= v <= max_small else "plain"
-            b.add("%sfor idx_%d, item_%d in enumerate(items, %d):" % (ind, k, k, v), v, str(v), cat)
+            b.add(rng.choice(["%sfor idx_%d, item_%d in enumerate(items, %d):", "%sfor idx_%d, item_%d in enumerate(items, start=%d):"]) % (ind, k, k, v), v, str(v), cat)
             b.add("%s    work_%d(idx_%d, item_%d)" % (ind, k, k, k))
         elif r < 0.7:
             v = _fresh(rng, used)
-            b.add("%sbanner_%d = \"-\" * %d" % (ind, k, v), v, str(v), "strrep")
+            b.add(rng.choice(["%sbanner_%d = \"-\" * %d", "%sbanner_%d = %d * \"=\"", "%sbanner_%d = 'ab' * %d"]) % (ind, k, v), v, str(v), "strrep")
         elif r < 0.75:
             t, v = py_literal(rng, used, forms)
             b.add("%sif a > %s:" % (ind, t), v, t, "plain")
@@ -211,7 +220,8 @@ def gen_ts(rng, n_items=25, js=False, forms=True):
     b.add("// Generated literals module")
     for _ in range(rng.randint(0, 3)):
         t, v = ts_literal(rng, used, forms)
-        b.add("const %s = %s;" % (rng.choice(["LIMIT_%d", "_PRIVATE_LIMIT_%d", "MAX2_RETRIES_%d"]) % nx(), t), v, t, "const")
+        b.add(rng.choice(["const %s = %s;", "const %s = -%s;", "export const %s = %s;"] + ([] if js else ["const %s: number = %s;", "const %s = %s as const;"]))
+              % (rng.choice(["LIMIT_%d", "_PRIVATE_LIMIT_%d", "MAX2_RETRIES_%d"]) % nx(), t), v, t, "const")
     if not js and rng.random() < 0.7:
         b.add("enum Level_%d {" % nx())
         for name in ("Low", "Mid", "High"):
@@ -317,7 +327,7 @@ def gen_rs(rng, n_items=25, forms=True):
     for _ in range(rng.randint(0, 3)):
         t, v = rs_literal(rng, used, False)
         kind = rng.choice(["const", "static"])
-        b.add("%s %s: i64 = %s;" % (kind, rng.choice(["LIMIT_%d", "_PRIVATE_LIMIT_%d", "MAX2_RETRIES_%d"]) % nx(), t), v, t, "const")
+        b.add("%s%s %s: i64 = %s%s;" % (rng.choice(["", "pub ", "pub(crate) "]), kind, rng.choice(["LIMIT_%d", "_PRIVATE_LIMIT_%d", "MAX2_RETRIES_%d"]) % nx(), rng.choice(["", "", "-"]), t), v, t, "const")
     b.add("")
     b.add("fn func_main(a: i64, items: &[i64]) -> i64 {")
     ind = "    "
